@@ -13,6 +13,12 @@ PYTHONPATH=$WT timeout 900 /venv/bin/python -W ignore demo.py > /tmp/seed_$SID.d
 git apply /tmp/seed_$SID.diff
 echo "demo with change: exit $WITH; without: exit $WITHOUT"
 PYTHONPATH=$WT timeout 1800 /venv/bin/python -m pytest -q -p no:cacheprovider -n 6 2>&1 | tail -1
-cd /repo && git apply /tmp/seed_$SID.diff && cd /verif && (./check $P --tier quick > /tmp/seed_$SID.check 2>&1; echo "check exit $?"; grep -A1 "VIOLATION" /tmp/seed_$SID.check | cut -c1-300 | head -6)
-git -C /repo checkout -- . && git -C /repo status --short | head -3
+if [ -n "$SEED_INPLACE" ]; then
+  # the prescribed procedure: patch /repo itself, run, undo
+  cd /repo && git apply /tmp/seed_$SID.diff && cd /verif && (./check $P --tier quick > /tmp/seed_$SID.check 2>&1; echo "check exit $?"; grep -A1 "VIOLATION" /tmp/seed_$SID.check | cut -c1-300 | head -6)
+  git -C /repo checkout -- . && git -C /repo status --short | head -3
+else
+  # while other work reads /repo: run the check against the worktree (which has the change applied)
+  cd /verif && (VERIF_REPO=$WT ./check $P --tier quick > /tmp/seed_$SID.check 2>&1; echo "check exit $?"; grep -A1 "VIOLATION" /tmp/seed_$SID.check | cut -c1-300 | head -6)
+fi
 mkdir -p /verif/seeded/$SID && cp /tmp/seed_$SID.diff /verif/seeded/$SID/patch.diff && cp $WT/demo.py /verif/seeded/$SID/demo.py
